@@ -458,10 +458,13 @@ const (
 	LayoutDMY      = "02/01/2006"
 	LayoutRFC3339  = "2006-01-02T15:04:05Z07:00"
 	LayoutText     = "Jan 2 2006 15:04"
+	// layouts whose texts also parse under a default layout, with another meaning
+	LayoutYDM = "2006-02-01"          // year-day-month
+	LayoutSMH = "2006-01-02 05:04:15" // seconds:minutes:hours
 )
 
 // KnownLayouts are the layouts the model can parse by hand; generators use only these.
-var KnownLayouts = []string{LayoutDate, LayoutDatetime, LayoutDMY, LayoutRFC3339, LayoutText}
+var KnownLayouts = []string{LayoutDate, LayoutDatetime, LayoutDMY, LayoutRFC3339, LayoutText, LayoutYDM, LayoutSMH}
 
 var monthNames = []string{"Jan", "Feb", "Mar", "Apr", "May", "Jun", "Jul", "Aug", "Sep", "Oct", "Nov", "Dec"}
 
@@ -545,6 +548,10 @@ func FormatCivil(c Civil, layout string) string {
 			z = sign + pad(o/3600, 2) + ":" + pad(o%3600/60, 2)
 		}
 		return pad(c.Y, 4) + "-" + pad(c.M, 2) + "-" + pad(c.D, 2) + "T" + pad(c.H, 2) + ":" + pad(c.Mi, 2) + ":" + pad(c.S, 2) + z
+	case LayoutYDM:
+		return pad(c.Y, 4) + "-" + pad(c.D, 2) + "-" + pad(c.M, 2)
+	case LayoutSMH:
+		return pad(c.Y, 4) + "-" + pad(c.M, 2) + "-" + pad(c.D, 2) + " " + pad(c.S, 2) + ":" + pad(c.Mi, 2) + ":" + pad(c.H, 2)
 	case LayoutText:
 		return monthNames[c.M-1] + " " + pad(c.D, 1) + " " + pad(c.Y, 4) + " " + pad(c.H, 2) + ":" + pad(c.Mi, 2)
 	}
@@ -606,6 +613,24 @@ func ParseCivil(s, layout string) (Civil, bool) {
 		c.Mi = p.digits(2, 2)
 		p.lit(":")
 		c.S = p.digits(2, 2)
+	case LayoutYDM:
+		c.Y = p.digits(4, 4)
+		p.lit("-")
+		c.D = p.digits(2, 2)
+		p.lit("-")
+		c.M = p.digits(2, 2)
+	case LayoutSMH:
+		c.Y = p.digits(4, 4)
+		p.lit("-")
+		c.M = p.digits(2, 2)
+		p.lit("-")
+		c.D = p.digits(2, 2)
+		p.lit(" ")
+		c.S = p.digits(2, 2)
+		p.lit(":")
+		c.Mi = p.digits(2, 2)
+		p.lit(":")
+		c.H = p.digits(2, 2)
 	case LayoutDMY:
 		c.D = p.digits(2, 2)
 		p.lit("/")
